@@ -178,18 +178,28 @@ impl Model for {name} {{
             rust_ty = t.rust
             ty_expr = "<%s as Model>::ty()" % t.rust
             dty_expr = "<%s as Model>::dec_ty()" % t.rust
+            val_expr = "self.%s.to_model()" % fname
+            dval_expr = "self.%s.to_model_dec()" % fname
             if "with" in flags:
                 m = self.legacy_mod(t)
                 attrs.append('with = "%s"' % m)
                 rust_ty = "Option<%s>" % t.rust
                 ty_expr = 'format!("(legacy {})", <%s as Model>::ty())' % t.rust
                 dty_expr = ty_expr
+            if "withbe" in flags:
+                assert t.rust in ("u16", "u32")
+                nb = 2 if t.rust == "u16" else 4
+                attrs.append('with = "be_%s"' % t.rust)
+                ty_expr = '"(bytesn %d)".to_string()' % nb
+                dty_expr = ty_expr
+                val_expr = 'format!("(x {:0%dx})", self.%s)' % (2 * nb, fname)
+                dval_expr = val_expr
             attr = ("    #[ssz(%s)]\n" % ", ".join(attrs)) if attrs else ""
             decl.append("%s    pub %s: %s," % (attr, fname, rust_ty))
             if "skip_ser" not in flags:
-                ser_fields.append((fname, ty_expr))
+                ser_fields.append((fname, ty_expr, val_expr))
             if "skip_de" not in flags:
-                de_fields.append((fname, dty_expr))
+                de_fields.append((fname, dty_expr, dval_expr))
             both = "skip_ser" in flags and "skip_de" in flags
             if both or ("skip_de" in flags):
                 # decode yields Default: generate Default so that equality can hold
@@ -237,15 +247,21 @@ impl Model for {name} {{
     }}
 }}
 """.format(name=name, decl="\n".join(decl), slots=", ".join("<%s as Model>::max_slot()" % (("Option<%s>" % t.rust) if "with" in fl else t.rust) for t, fl in fields) or "0",
-           tys=", ".join(e for _, e in ser_fields), dtys=", ".join(e for _, e in de_fields),
-           vals=", ".join("self.%s.to_model()" % f for f, _ in ser_fields),
-           dvals=", ".join("self.%s.to_model_dec()" % f for f, _ in de_fields),
+           tys=", ".join(e for _, e, _ in ser_fields), dtys=", ".join(e for _, e, _ in de_fields),
+           vals=", ".join(v for _, _, v in ser_fields),
+           dvals=", ".join(v for _, _, v in de_fields),
            gens=" ".join(gens), sym="true" if sym else "false"))
         fdesc = []
         for t, fl in fields:
-            nat = len([1 for k in ("skip_ser", "skip_de", "with") if k in fl])
-            fdesc.append('format!("(f {} %d %d %d %d)", <%s as Model>::ty())' % (
-                1 if "skip_ser" in fl else 0, 1 if "skip_de" in fl else 0, 1 if "with" in fl else 0, 1 if nat else 0, t.rust))
+            nat = len([1 for k in ("skip_ser", "skip_de", "with", "withbe") if k in fl])
+            if "with" in fl:
+                wexpr = 'format!("(legacy {})", <%s as Model>::ty())' % t.rust
+            elif "withbe" in fl:
+                wexpr = '"(bytesn %d)".to_string()' % (2 if t.rust == "u16" else 4)
+            else:
+                wexpr = '"0".to_string()'
+            fdesc.append('format!("(f {} %d %d {} %d)", <%s as Model>::ty(), %s)' % (
+                1 if "skip_ser" in fl else 0, 1 if "skip_de" in fl else 0, 1 if nat else 0, t.rust, wexpr))
         self.defns.append(('format!("(struct 0 container 1{}", vec![%s].iter().map(|p: &String| format!(" {}", p)).collect::<String>()) + ")"' % ", ".join(fdesc), name))
         has_default = False
         self.note(name, [t for t, _ in fields], legacy=any('with' in fl for _, fl in fields))
@@ -449,12 +465,22 @@ def build_fixed(g):
     g.container([(u8, set()), (vec(u16), {"with"}), (u16, {"with"}), (vec(u8), set())])
     g.container([(by["[u8; 4]"], {"with"}), (vec(vec(u8)), {"with"})])
     g.container([(fl, set()), (vl, set()), (bls[9], set()), (bvs[9], set())])
+    # fixed-size custom field codecs (big-endian), in all-fixed and in mixed containers
+    g.container([(u16, set()), (u32, {"withbe"}), (u8, set())])
+    g.container([(u16, {"withbe"})])
+    g.container([(u32, {"withbe"}), (vec(u8), set()), (u16, {"withbe"})])
+    g.container([(u8, set()), (u16, {"withbe"}), (vec(u16), {"with"}), (u32, {"withbe", "skip_ser", "skip_de"})])
     g.container([(u8, set()), (ZERO, set())])
     g.container([(ZERO, set())])
     # transparent structs
     for inner, b, a, tu in [(u8, 0, 0, False), (vec(u8), 0, 0, True), (u64, 1, 0, False), (vec(u16), 0, 1, True),
-                            (vl, 1, 1, False), (bls[9], 2, 1, True), (fl, 0, 2, False)]:
-        g.transparent_struct(inner, b, a, tu)
+                            (vl, 1, 1, False), (bls[9], 2, 1, True), (fl, 0, 2, False),
+                            (u64, 0, 0, True), (u16, 1, 0, True), (by["[u8; 33]"], 0, 1, True), (bvs[9], 0, 0, True),
+                            (by["[u8; 32]"], 0, 0, False)]:
+        w = g.transparent_struct(inner, b, a, tu)
+        # the wrapper next to variable-size neighbours: its metadata feeds the parent's offsets
+        g.container([(w, set()), (vec(u8), set())])
+        A(tup([vec(u8), w, vec(u16)])); A(vec(w)); A(option(w))
     # enums
     for n in [1, 2, 3, 127, 128]:
         tg = g.tag_enum(n)
@@ -515,6 +541,8 @@ def random_programs(g, rnd, count):
                     flags = {"skip_ser", "skip_de"}
                 elif x < 0.24 and not t.rust.startswith(("TE",)) and t.depth <= 1 and kind == "cont":
                     flags = {"with"}
+                elif x < 0.40 and t.rust in ("u16", "u32"):
+                    flags = {"withbe"}
                 fields.append((t, flags))
             made.append(g.container(fields))
         elif kind == "wrap":
@@ -572,6 +600,36 @@ use ssz_derive::{Decode, Encode};
 use std::collections::{BTreeMap, BTreeSet};
 use std::num::NonZeroUsize;
 use std::sync::Arc;
+
+/// Fixed-size custom field codecs for `#[ssz(with = "..")]`: big-endian integers.  On the wire a
+/// `u32` field coded by `be_u32` is four arbitrary bytes, i.e. the schema `(bytesn 4)`; the value
+/// is presented to the model as those bytes in wire order.
+macro_rules! be_codec {
+    ($m:ident, $t:ty, $n:expr) => {
+        pub mod $m {
+            pub mod encode {
+                pub fn is_ssz_fixed_len() -> bool { true }
+                pub fn ssz_fixed_len() -> usize { $n }
+                pub fn ssz_bytes_len(_v: &$t) -> usize { $n }
+                pub fn ssz_append(v: &$t, buf: &mut Vec<u8>) { buf.extend_from_slice(&v.to_be_bytes()) }
+            }
+            pub mod decode {
+                pub fn is_ssz_fixed_len() -> bool { true }
+                pub fn ssz_fixed_len() -> usize { $n }
+                pub fn from_ssz_bytes(bytes: &[u8]) -> Result<$t, ssz::DecodeError> {
+                    if bytes.len() != $n {
+                        return Err(ssz::DecodeError::InvalidByteLength { len: bytes.len(), expected: $n });
+                    }
+                    let mut a = [0u8; $n];
+                    a.copy_from_slice(bytes);
+                    Ok(<$t>::from_be_bytes(a))
+                }
+            }
+        }
+    };
+}
+be_codec!(be_u16, u16, 2);
+be_codec!(be_u32, u32, 4);
 """
 
 
